@@ -18,7 +18,8 @@ RULE = ("A case is one of: [select] account/password (ASCII incl. '+ @ % & = spa
         "Discover.discover(auto_connect=True) against a V3 host whose credential is registered under the little- or "
         "big-endian udpid, the cloud issuing some token for every udpid asked. The reference server verifies sign, "
         "fixed fields, stamp = wall clock, loginAccount, password derivation and sessionId on every request. Distinct "
-        "= distinct plan; non-trivial = at least one request reached the reference server.")
+        "= distinct plan; non-trivial = at least one request reached the reference server."
+        " Later additions: parts 'relogin' (rotating login ids, dropped sessions answered 3106), 'overlapping_calls_one_cancelled'; e2e with silent firmware, concurrent devices, a second run after session expiry and one-off hard cloud faults.")
 ASSUMPTIONS = [
     "NetHome Plus API as implemented by refmodel/cloud.py: sign = SHA-256(path || sorted k=v joined by & || APP_KEY), "
     "password = SHA-256(loginId || SHA-256(password).hex || APP_KEY); form-encoded POST to https://mapp.appsmb.com",
